@@ -203,6 +203,8 @@ class OutputAsync(addons.AddonAsync, block.SBlock):
         self._stop_data = stop_data
         self._ctrl_task: asyncio.Task
         self._queue: asyncio.Queue
+        # True = the output task is being cancelled by the control task (mode 'cancel')
+        self._cancel_requested = False
         super().__init__(*args, **kwargs)
         if self._guard_time > self.stop_timeout:
             raise ValueError(
@@ -220,10 +222,13 @@ class OutputAsync(addons.AddonAsync, block.SBlock):
         try:
             retval = await self._coro(*args, **kwargs)
         except asyncio.CancelledError:
-            # it is assumed that the coroutine was cancelled by the control task
             self.log_debug("output task cancelled")
             for ev in self._on_cancel:
                 ev.send(self, trigger='cancel', put=data)
+            if not self._cancel_requested:
+                # not cancelled by the control task: the block is being stopped and
+                # the stop_timeout has expired; do not continue with the remaining work
+                raise
         except Exception as err:
             self.log_error(
                 "output task failed; args: %s; error: %r", _args_as_string(args, kwargs), err)
@@ -238,7 +243,8 @@ class OutputAsync(addons.AddonAsync, block.SBlock):
                 await utils.shield_cancel(asyncio.sleep(self._guard_time))
             except asyncio.CancelledError:
                 # shield_cancel re-reaises any CancelledError when it stops shielding
-                pass
+                if not self._cancel_requested:
+                    raise
 
     async def _output_coro_wrapper(self, data: Mapping) -> None:
         """Count the active tasks."""
@@ -268,6 +274,7 @@ class OutputAsync(addons.AddonAsync, block.SBlock):
                     stop = True
             if task and not task.done():
                 if not stop:
+                    self._cancel_requested = True
                     task.cancel()
                 # do not use try/await task/except here, because the _output_coro
                 # catches all exceptions from user-supplied 'coro'
@@ -284,6 +291,7 @@ class OutputAsync(addons.AddonAsync, block.SBlock):
                     ev.send(self, trigger='cancel', put=data)
                 data = new_data
             # we are already running as a monitored task
+            self._cancel_requested = False
             task = asyncio.create_task(self._output_coro_wrapper(data))
 
     async def _ctrl_wait(self) -> None:
